@@ -283,7 +283,10 @@ def c11_scenarios(tier, seed):
                 for b in ((2, BIG) if tier == "quick" else (1, 2, 3, BIG)):
                     lists = [T[k] for k in combo]
                     st = interleave(rnd, lists)
-                    out.append({"B": b, "buf": buf, "combo": list(combo), "runs": [{"ing": True, "ug": False, "spans": st}]})
+                    # timestamps as they are in real data: not multiples of 256 ns (a double cannot hold them); 200 rounds
+                    # up to the next representable value, 77 rounds down
+                    out.append({"B": b, "buf": buf, "combo": list(combo), "ns_offset": (0, 200, 77)[len(out) % 3],
+                                "runs": [{"ing": True, "ug": False, "spans": st}]})
     return out
 
 
@@ -322,7 +325,7 @@ def twin_of(scn, lines):
     spans = [s for s in run["spans"] if s["job"] in kept]
     if len(spans) == len(run["spans"]) or not spans:
         return None
-    return {"B": scn["B"], "buf": scn["buf"], "runs": [dict(run, spans=spans)]}
+    return {"B": scn["B"], "buf": scn["buf"], "ns_offset": scn.get("ns_offset", 0), "runs": [dict(run, spans=spans)]}
 
 
 # C15: run histories
